@@ -116,6 +116,9 @@ pub mod gen {
             cmp(Lt(cur(vec![sn("a")]), cur(vec![sn("b")]))),                // @.a < @.b
             cmp(Eq(cur(vec![sn("a")]), rootq(vec![sn("a")]))),              // @.a == $.a
             cmp(Eq(cur(vec![]), rootq(vec![SingularQuerySegment::Index(0)]))), // @ == $[0]
+            t(rel(vec![Segment::Selectors(vec![Selector::Name("a".into()), Selector::Name("zz".into())])])),   // @['a','zz']  (a hit, then a miss)
+            t(rel(vec![Segment::Selectors(vec![Selector::Name("zz".into()), Selector::Name("b".into())])])),   // @['zz','b']
+            t(Test::AbsQuery(JpQuery::new(vec![Segment::Selectors(vec![Selector::Name("a".into()), Selector::Name("zz".into())])]))), // $['a','zz']
             t(rel(vec![Segment::Selector(Selector::Wildcard), name("a")])),   // @.*.a   (the first intermediate node may lead nowhere)
             t(rel(vec![Segment::Selector(Selector::Slice(Some(0), Some(3), None)), name("a")])), // @[0:3].a
             cmp(Eq(cur(vec![sn("'a\\/b'")]), lit_i(1))),                       // @['a\/b'] == 1
